@@ -10,6 +10,7 @@ CONSTANTS
   Direct = TRUE
   MidCrash = TRUE
   Timeouts = TRUE
+  MaxWriteFaults = 3
 INVARIANT ContainerOK
 INVARIANT StorageShape
 POSTCONDITION TraceAccepted
